@@ -3,7 +3,8 @@ C07 — specification side: a strict reader of a header block.
 
 The property speaks about "the serialized response parsed by a strict client parser".  `readBlock`
 is that parser reduced to what matters here: lines are terminated by CR LF exactly, the block ends at
-the first empty line, and `clean` says that no CR, LF or NUL byte occurs inside any line.
+the first empty line, and `clean` says that no CR, LF or NUL byte occurs inside any line.  `parseField` is the
+field-level step: the name of a header line is what precedes its first colon and must be a token.
 -/
 import TornadoModel.C07.Model
 namespace TornadoModel.C07.Spec
@@ -31,5 +32,22 @@ def readBlock (s : Str) : Option (List Str × Str) := readLines (s.length + 1) s
 /-- no CR, LF or NUL inside a line -/
 def cleanLine (l : Str) : Bool := l.all (fun b => b != 13 && b != 10 && b != 0)
 def clean (ls : List Str) : Bool := ls.all cleanLine
+
+/-! ### field level: what a strict client makes of one header line
+
+RFC 9110 §5.1 / RFC 9112 §5: `field-line = field-name ":" OWS field-value OWS`, `field-name = token`.  The name
+is everything before the FIRST colon and must be a non-empty token (no whitespace, no separators); what follows
+the colon is returned untouched (the oracle and the theorems compare it with `" " ++ value`). -/
+
+/-- split at the first colon -/
+def splitColon : Str → Option (Str × Str)
+  | [] => none
+  | c :: rest => if c = 58 then some ([], rest) else (splitColon rest).map (fun p => (c :: p.1, p.2))
+
+/-- `(field-name, text after the colon)` of a header line, or `none` when a strict client rejects the line -/
+def parseField (l : Str) : Option (Str × Str) :=
+  match splitColon l with
+  | some (n, v) => if isToken n then some (n, v) else none
+  | none => none
 
 end TornadoModel.C07.Spec
